@@ -121,6 +121,38 @@ class SimWorld:
         gs = Ptr(self.sched_cell, (("f", 0),), "ref")
         return self.it.call_fn("GlobalScheduler", None, "schedule_from", [gs, deadline, action, origin])
 
+    # -- the event API: Scheduler::schedule_*event (origin 0) and Context::schedule_*event (model origins); the leaf future
+    #    is the real coroutine value built by process_event / send_keyed_event (opaque to the interpreter)
+    def address(self, origin):
+        return Agg("Address", [Opaque("Sender", origin=origin)])
+
+    def context(self, origin):
+        cx = self._contexts.get(origin) if hasattr(self, "_contexts") else None
+        if cx is None:
+            if not hasattr(self, "_contexts"):
+                self._contexts = {}
+            gs = clone_value(self.it.read_loc(self.sched_cell, (("f", 0),)))
+            cxv = self.it.call_fn("Context", None, "new", [Opaque("String", s="m%d" % origin), gs, self.address(origin)])
+            cx = Cell(cxv, tag="context%d" % origin)
+            self._contexts[origin] = cx
+        return Ptr(cx, (), "ref")
+
+    def schedule_event(self, kind, deadline, lid, period, origin, keys):
+        it = self.it
+        func = Opaque("InputFn", name="R::fire")
+        arg = I(lid, "u64")
+        meth = {"once": "schedule_event", "periodic": "schedule_periodic_event", "keyed": "schedule_keyed_event",
+                "kperiodic": "schedule_keyed_periodic_event"}[kind]
+        args = [deadline] + ([period] if kind in ("periodic", "kperiodic") else []) + [func, arg]
+        if origin == 0:
+            r = it.call_fn("Scheduler", None, meth, [self.sched_ref()] + args + [self.address(1)])
+        else:
+            r = it.call_fn("Context", None, meth, [self.context(origin)] + args)
+        if kind in ("keyed", "kperiodic") and r.variant == "Ok":
+            keys[lid] = r.fields[0]
+            return Agg("Result", [unit()], variant="Ok")
+        return r
+
     def step(self):
         return self.it.call_fn("Simulation", None, "step", [self.sim_ref()])
 
@@ -212,6 +244,11 @@ class SimWorld:
             "TypeId::of": lambda it, cal, args: Opaque("TypeId", send_error=("SendError" in cal.raw)),
             "<TypeId as PartialEq>::eq": lambda it, cal, args: B(deref_all(it, args[0]).data == deref_all(it, args[1]).data),
             "<TypeId as PartialEq>::ne": lambda it, cal, args: B(deref_all(it, args[0]).data != deref_all(it, args[1]).data),
+            "<Address as Into>::into": lambda it, cal, args: clone_value(deref_all(it, args[0])),
+            "<&Address as Into>::into": lambda it, cal, args: clone_value(deref_all(it, args[0])),
+            "Sender::channel_id": lambda it, cal, args: I(deref_all(it, args[0]).data["origin"], "usize"),
+            "<Sender as Clone>::clone": lambda it, cal, args: deref_all(it, args[0]),
+            "<InputFn as Clone>::clone": lambda it, cal, args: deref_all(it, args[0]),
             "<TestObserver as ChannelObserver>::len": lambda it, cal, args: deref_all(it, args[0]).data["len"],
             "Poll::is_ready": lambda it, cal, args: B(deref_all(it, args[0]).variant == "Ready"),
             "Poll::is_pending": lambda it, cal, args: B(deref_all(it, args[0]).variant == "Pending"),
@@ -231,6 +268,9 @@ class SimWorld:
                 v = v.fields[0]
             else:
                 break
+        if isinstance(v, Agg) and isinstance(v.name, str) and v.name.startswith(("{async fn body of", "{coroutine@", "{async ")):
+            f = dict(zip(v.meta or [], v.fields))
+            return ("Coroutine", f["arg"].concrete() if "arg" in f else None, 0)
         if isinstance(v, Opaque):
             return (v.tag, v.data.get("id"), v.data.get("occ"))
         if isinstance(v, Agg) and v.name == "SeqFuture":
@@ -255,9 +295,16 @@ class SimWorld:
                 v = v.fields[0]
                 continue
             break
+        if isinstance(v, Agg) and isinstance(v.name, str) and v.name.startswith(("{async fn body of", "{coroutine@", "{async ")):
+            # the real coroutine built by scheduler::process_event / send_keyed_event (event API): opaque leaf; the
+            # keyed variant re-checks its key inside the model task right before calling the handler
+            f = dict(zip(v.meta or [], v.fields))
+            if "arg" not in f:
+                raise Unsupported(f"leaf coroutine without `arg`: {v.name}")
+            v = Opaque("KeyedLeafFut" if "event_key" in f else "LeafFut", id=f["arg"].concrete(), occ=0, key=f.get("event_key"), recheck=True)
         if isinstance(v, Opaque) and v.tag in ("LeafFut", "KeyedLeafFut"):
             lid, occ = v.data["id"], v.data.get("occ", 0)
-            if v.tag == "KeyedLeafFut":
+            if v.tag == "KeyedLeafFut" and v.data.get("recheck"):
                 c = self.key_cancelled(v.data["key"])
                 if it.branch(c.v, "keyed-recheck"):
                     it.event("skip-cancelled", lid, occ)
